@@ -70,7 +70,7 @@ class TCP(ThreadedTransport):
 
     def send(self, data):
         """Send data"""
-        self.sock.send(data)
+        self.sock.sendall(data)
 
     def recv_thread(self):
         """Receive either a packet, or an ack"""
